@@ -56,7 +56,7 @@ func compareSQL(w *core.Worker, s string) (kind, msg string) {
 	for _, m := range sqlModes {
 		rm := refMode(m)
 		// (i) token stream
-		if len(s) <= 8192 {
+		if len(s) <= 70000 {
 			got := li.VerifSQLTokens(s, m)
 			want, lx, wcap := refsql.Tokens(s, rm, kw)
 			bad := got.Capped || wcap || len(got.Tokens) != len(want)
@@ -124,7 +124,7 @@ func compareSQL(w *core.Worker, s string) (kind, msg string) {
 }
 
 var c06Quick = []Mix{
-	{Gen: "corpus"}, {Gen: "bytes"}, {Gen: "trunc"},
+	{Gen: "corpus"}, {Gen: "bytes"}, {Gen: "padded"}, {Gen: "trunc"},
 	{Gen: "atoms", Dict: "sqlcore", K: 3},
 	{Gen: "atoms", Dict: "sqledge", K: 4},
 	{Gen: "atoms", Dict: "sqlmid", K: 4},
@@ -141,7 +141,7 @@ var c06Quick = []Mix{
 }
 
 var c06Thorough = []Mix{
-	{Gen: "corpus"}, {Gen: "bytes"}, {Gen: "trunc"},
+	{Gen: "corpus"}, {Gen: "bytes"}, {Gen: "padded", N: 1}, {Gen: "trunc"},
 	{Gen: "atoms", Dict: "sqlcore", K: 4},
 	{Gen: "atoms", Dict: "sqledge", K: 6},
 	{Gen: "atoms", Dict: "sqlmid", K: 5},
